@@ -14,7 +14,7 @@ from vlib.proto import hexs, unhex
 from vlib import paths as vpaths
 from checks import pathgen as pg
 
-LEAN_TARGETS = ["LyModel.Props.C15"]
+LEAN_TARGETS = ["LyModel.Props.C15", "LyModel.Props.C15Typed"]
 AUDIT = "Audit/C15.lean"
 GENERATED = ["PathFmt"]
 ASSUMPTIONS = [
@@ -46,6 +46,19 @@ def chain_has_both_quotes(forest, addr):
                 if both_quotes(c[3]):
                     return True
         elif n[2] == "F" and both_quotes(n[3]):
+            return True
+    return False
+
+
+def chain_touches_tagged(tforest, addr):
+    """F460: some element of the chain (or the node itself) is an instance of a schema node one of whose sibling instances holds a union
+    value that its canonical string does not identify (value key with a NUL tag) as key / leaf-list / leaf value"""
+    def tagged(n):
+        if n[2] in "Ll":
+            return any(b"\x00" in c[3] for c in n[4] if c[2] == "K")
+        return n[2] in "FfKe" and b"\x00" in n[3]
+    for sibs, i, n in pg.chain_of(tforest, addr):
+        if any(m[0] == n[0] and m[1] == n[1] and tagged(m) for m in sibs):
             return True
     return False
 
@@ -132,6 +145,8 @@ def classify(component, what, case):
     addr = tuple(case["addr"])
     if law in ("find", "xpath", "chain", "exists") and chain_has_both_quotes(forest, addr):
         return "F7"
+    if law in ("find", "xpath", "chain", "exists") and case.get("ttser") and chain_touches_tagged(pg.parse_ser(case["ttser"]), addr):
+        return "F460"
     if law == "xpath" and case.get("rc", 0) <= -12:
         # F68: more than one node returned, and a sibling from another module has the same name
         sibs, i, n = pg.chain_of(forest, addr)[-1]
@@ -262,7 +277,8 @@ def run_cases(cx, cases):
             cx.notes.append("generator case rejected (%s): %s %s" % (c.tag, rs, rt)) if len(cx.notes) < 6 else None
             continue
         c.sser = rs[2] if c.kind == "reply" else rs[1]
-        c.nnodes, c.tser, c.ndflt = int(rt[1]), rt[2], int(rt[3])
+        c.tsser, c.types = (rs[4] if c.kind == "reply" else rs[3]), rs[5]
+        c.nnodes, c.tser, c.ndflt, c.ttser = int(rt[1]), rt[2], int(rt[3]), rt[4]
         c.forest = pg.parse_ser(c.tser)
         c.addrs = list(pg.all_addrs(c.forest))
         if c.nnodes == 0:
@@ -274,6 +290,9 @@ def run_cases(cx, cases):
         c.m_p0, c.m_p1 = ids.next("m"), ids.next("m")
         mlines.append("%s path pathsof %s 0" % (c.m_p0, c.tser))
         mlines.append("%s path pathsof %s 1" % (c.m_p1, c.tser))
+        if not c.string_only:
+            c.m_pt = ids.next("m")
+            mlines.append("%s path tpathsof %s" % (c.m_pt, c.ttser))
     rm = cx.run_model(mlines)
     for c in good:
         for ty, ii, mi in ((0, c.i_p0, c.m_p0), (1, c.i_p1, c.m_p1)):
@@ -291,6 +310,12 @@ def run_cases(cx, cases):
                 k = next((k for k in range(1, min(len(a), len(b))) if a[k] != b[k]), None)
                 cx.disagree("path", "pathsof type=%d tree=%s addr=%s" % (ty, c.tser[:4000], pg.addr_str(c.addrs[k - 1]) if k and k - 1 < len(c.addrs) else "?"),
                             a[:1] + ([a[k]] if k else a[1:3]), b[:1] + ([b[k]] if k else b[1:3]))
+        if not c.string_only and ok(ri.get(c.i_p0)):
+            # lyd_path prints the canonical string of a value key (typed tree serialisation)
+            a, b = ri.get(c.i_p0), rm.get(c.m_pt, ["err", "NoReply"])
+            cx.count(("tpathsof", c.ttser), True, "tpathsof:" + ("tagged-union-values" if "00" in c.ttser and c.ttser != c.tser else "plain"))
+            if a != b:
+                cx.disagree("path", "tpathsof tree=%s" % c.ttser[:4000], a[:3], b[:3])
         # laws
         r = ri.get(c.i_r)
         if lost(r):
@@ -306,7 +331,7 @@ def run_cases(cx, cases):
             law, addr, rc = f.split(":")
             addr = tuple(int(x) for x in addr.split("."))
             cx.fail("path", "law `%s` fails on the implementation (rc=%s)" % (law, rc),
-                    dict(c.replay(), law=law, addr=list(addr), rc=int(rc), tser=c.tser, path_hex=hexs(c.paths.get(addr, b""))))
+                    dict(c.replay(), law=law, addr=list(addr), rc=int(rc), tser=c.tser, ttser=c.ttser, path_hex=hexs(c.paths.get(addr, b""))))
     # ---------------------------------------------------------------- pass 2: buffers, find, newpath
     lines, todo = [], []
     for c in good:
@@ -352,6 +377,41 @@ def run_cases(cx, cases):
                 i = ids.next("E")
                 lines.append("%s path newpath %s %s" % (i, hexs(p), "~" if v is None else hexs(v)))
                 todo.append(("newpath0", c, i, "newpath %s - %s %s" % (c.sser, hexs(p), hexs(v or b"")), p))
+        if not c.string_only:
+            # typed keys: the printed path, every order of the key predicates of its multi-key steps, and mutations that respell
+            # predicate values (sign, zeros, blanks, bit order, identityref prefix, Number token), reorder / drop / repeat / rename keys
+            probes = []
+            for ad in sample[:cx.n(4, 6)]:
+                p, node = c.paths[ad], pg.node_at(c.forest, ad)
+                val = node[3] if node[2] in "KeFf" else None
+                probes.append((p, val, "printed"))
+                orders = pg.all_key_orders(p)
+                nord = cx.n(2, 5)
+                for q in (orders if len(orders) <= nord else rng.sample(orders, nord)):
+                    probes.append((q, val, "key-order"))
+                for _ in range(cx.n(3, 6)):
+                    probes.append((pg.mutate_typed(rng, p), pg.value_variants(rng, val), "mutated"))
+            probes += [(p, None, "corpus") for p in c.extra_paths]
+            probes = [(p, v, w) for p, v, w in probes if b"$" not in p and b"\x00" not in p and p.lstrip(b" \t\n\r").startswith(b"/")
+                      and (v is None or b"\x00" not in v)]
+            seen, uniq = set(), []
+            for p, v, w in probes:
+                if (p, v) not in seen:
+                    seen.add((p, v))
+                    uniq.append((p, v, w))
+            for p, v, w in uniq:
+                i = ids.next("G")
+                lines.append("%s path find %s" % (i, hexs(p)))
+                todo.append(("tfind", c, i, "tfind %s %s %s %s" % (c.tsser, c.types, c.ttser, hexs(p)), (p, w)))
+                if c.ndflt == 0:
+                    i = ids.next("O")
+                    lines.append("%s path tnewpath %s %s" % (i, hexs(p), "~" if v is None else hexs(v)))
+                    todo.append(("tnewpath", c, i, "tnewpath %s %s %s %s %s" % (c.tsser, c.types, c.ttser, hexs(p), hexs(v or b"")), (p, w)))
+            lines.append("%s path empty" % ids.next("T"))
+            for p, v, w in uniq:
+                i = ids.next("U")
+                lines.append("%s path tnewpath %s %s" % (i, hexs(p), "~" if v is None else hexs(v)))
+                todo.append(("tnewpath0", c, i, "tnewpath %s %s - %s %s" % (c.tsser, c.types, hexs(p), hexs(v or b"")), (p, w)))
     if os.environ.get("C15_DUMP"):
         open(os.path.join(os.environ["C15_DUMP"], "pass2-%d.txt" % len(lines)), "w").write("\n".join(lines) + "\n")
     ri = cx.run_impl(API, lines, component="path")
@@ -381,11 +441,14 @@ def run_cases(cx, cases):
             if canon(av) != canon(bv):
                 cx.disagree("path", "pathx %s  (model: %s)" % (" ".join(str(x) for x in extra), ml[:3000]), a, b)
         else:
-            cx.count((what, c.tser, extra), True, "%s:%s" % (what, a[0] if a[0] == "ok" else a[1]))
+            if b[:2] == ["err", "Unsupported"] and a != b:
+                cx.dist[what + ":outside-fragment"] += 1
+                continue
+            if what.startswith("t"):
+                cx.count((what, c.ttser, extra[0]), True, "%s:%s:%s" % (what, extra[1] or "-", a[0] if a[0] == "ok" else a[1]))
+            else:
+                cx.count((what, c.tser, extra), True, "%s:%s" % (what, a[0] if a[0] == "ok" else a[1]))
             if a != b:
-                if b[:2] == ["err", "Unsupported"]:
-                    cx.dist[what + ":outside-fragment"] += 1
-                    continue
                 cx.disagree("path", "%s path=%r  (model line: %s)" % (what, extra, ml[:3000]), a, b)
     if todo:
         cx.sample(todo[rng.randrange(len(todo))][3][:600])
